@@ -328,7 +328,7 @@ class Model:
         scale = self.tol(array, [self.store[s] for s in known])
         if self.spec["type"] == "int":
             return ("must_raise" if (remainder != 0).any() else "must_not_raise"), exp, known, unknown
-        if (numpy.abs(remainder) > 1e-4 * scale).any():
+        if (numpy.abs(remainder) > _rel_tol(1e-4, 2 * len(known)) * scale).any():
             return "must_raise", exp, known, unknown
         if (remainder == 0).all() and len(known) == 1:
             return "must_not_raise", exp, known, unknown
@@ -466,7 +466,7 @@ def run(scn) -> Result:
                                 if exp[s_][0] == "exact" or spec["type"] == "int":
                                     ok = (got.astype(numpy.float64) == numpy.asarray(want, dtype=numpy.float64)).all()
                                 else:
-                                    ok = (numpy.abs(got.astype(numpy.float64) - want) <= 1e-5 * scale).all()
+                                    ok = (numpy.abs(got.astype(numpy.float64) - want) <= _rel_tol(1e-5, len(known)) * scale).all()
                                 if not ok:
                                     res.violate("C16.share" if spec["set_input"] == "divide" else "C16.repeat", step, op=do[:3], sub=s_,
                                                 what="an input whose storing failed left a wrong value behind", got=canon(got),
@@ -545,7 +545,7 @@ def run(scn) -> Result:
                             if spec["type"] == "int":
                                 ok = (got.astype(numpy.float64) == want).all()
                             else:
-                                ok = (numpy.abs(got.astype(numpy.float64) - want) <= 1e-5 * scale).all()
+                                ok = (numpy.abs(got.astype(numpy.float64) - want) <= _rel_tol(1e-5, len(known)) * scale).all()
                             if not ok:
                                 res.violate("C16.share", step, op=do[:3], sub=s, expected=want.tolist(), got=canon(got),
                                             int_nondivisible=bool(spec["type"] == "int" and (want != numpy.floor(want)).any()), **mech)
@@ -578,7 +578,7 @@ def run(scn) -> Result:
                             if spec["type"] == "int":
                                 ok = (total == a64).all()
                             else:
-                                ok = (numpy.abs(total - a64) <= 1e-4 * mag).all()
+                                ok = (numpy.abs(total - a64) <= _rel_tol(1e-4, 2 * len(subs)) * mag).all()
                             if not ok:
                                 res.violate("C16.conserve", step, op=do[:3], expected=a64.tolist(), got=total.tolist(), **mech)
                 elif kind == "calculate_add":
@@ -636,6 +636,16 @@ def run(scn) -> Result:
     finally:
         world.close()
         seams.Env.uninstall()
+
+
+def _rel_tol(base: float, n_terms: int) -> float:
+    """Relative tolerance for a float32 quantity obtained through `n_terms` successive float32
+    additions or subtractions: each may round by half an ulp of the running magnitude
+    (2**-24 ~ 6e-8), and when the same small value is taken n times from about the same large
+    one the roundings all go the same way - so the bound grows with n (one part in 10**5 for
+    a year of days).  Never tighter than `base`; a missing or doubled sub-period is still two
+    orders of magnitude away."""
+    return max(base, (n_terms + 2) * 1.2e-7)
 
 
 def _within(inner: str, outer: str) -> bool:
